@@ -188,16 +188,29 @@ func RunConc(line string, mk func(cfg string, nthreads int) Obj) string {
 			}
 		}
 	}
-	if !s.AllDone() {
-		trace = append(trace, "cap")
-		s.Release(2 * time.Second)
-	}
+	capped := false
 	var rs []string
-	for _, r := range results {
-		rs = append(rs, strings.Join(r, ","))
+	if !s.AllDone() {
+		capped = true
+		// results as they stand at the cap (what the model reports); what happens after the release is not compared
+		for _, r := range results {
+			rs = append(rs, strings.Join(r, ","))
+		}
+		trace = append(trace, "cap")
+		// let the object unblock threads that wait for a condition only it can establish (e.g. a restart
+		// spinning until the actor is idle), then let everything run freely to its end
+		if a, ok := obj.(interface{ Abort() }); ok {
+			go a.Abort()
+		}
+		s.Release(3 * time.Second)
+	}
+	if !capped {
+		for _, r := range results {
+			rs = append(rs, strings.Join(r, ","))
+		}
 	}
 	fin := ""
-	if s.AllDone() {
+	if s.AllDone() && !capped {
 		fin = Safe(obj.Final)
 	} else {
 		fin = "unfinished"
